@@ -49,6 +49,8 @@ struct Case {
     preemption_bound: Option<usize>,
     /// hold the guard of round 0 across round 1 (nested guards in one thread)
     nested: bool,
+    /// arenas created (and returned) by the main thread before the workers start: idle arenas must be reused
+    prefill: usize,
 }
 
 #[derive(Default)]
@@ -85,6 +87,17 @@ macro_rules! body {
         *REG.lock().unwrap_or_else(|e| e.into_inner()) = Some(Registry::default());
         EXECUTIONS.fetch_add(1, Ordering::Relaxed);
         let pool: loom::sync::Arc<BumpPool<SlabS8, $S>> = loom::sync::Arc::new(BumpPool::new_in(SlabS8 { id: 0xB00 }));
+        if case.prefill > 0 {
+            // `prefill` guards alive at the same time, then all returned: the pool now holds that many idle arenas
+            let gs: Vec<BumpPoolGuard<'_, SlabS8, $S>> = (0..case.prefill).map(|_| pool.get()).collect();
+            reg(|r| {
+                r.peak_in_flight = r.peak_in_flight.max(case.prefill);
+                for g in &gs {
+                    r.seen.insert(g.stats().small_to_big().next().map_or(0, |c| c.chunk_start().as_ptr() as usize));
+                }
+            });
+            drop(gs);
+        }
         let mut handles = Vec::new();
         for t in 0..case.threads {
             let pool = pool.clone();
@@ -256,7 +269,11 @@ fn run_case(case: Case) -> (u64, Option<String>, f64, usize) {
 }
 
 fn cases(thorough: bool) -> Vec<Case> {
-    let c = |name, threads, rounds, get, end, up, bytes, pb, nested| Case { name, threads, rounds, get, end, up, bytes, preemption_bound: pb, nested };
+    let c = |name, threads, rounds, get, end, up, bytes, pb, nested| Case { name, threads, rounds, get, end, up, bytes, preemption_bound: pb, nested, prefill: 0 };
+    let p = |mut case: Case, prefill: usize| {
+        case.prefill = prefill;
+        case
+    };
     let mut v = vec![
         c("2x2-get-reset-up", 2, 2, GetKind::Get, EndMode::Reset, true, 40, None, false),
         c("2x2-tryget-drop-down", 2, 2, GetKind::TryGet, EndMode::Drop, false, 40, None, false),
@@ -264,6 +281,10 @@ fn cases(thorough: bool) -> Vec<Case> {
         c("2x2-withsize-reset-down", 2, 2, GetKind::WithSize, EndMode::Reset, false, 200, None, false),
         c("2x2-nested-get-drop-up", 2, 2, GetKind::WithCapacity, EndMode::Drop, true, 40, None, true),
         c("3x2-get-reset-up-pb2", 3, 2, GetKind::Get, EndMode::Reset, true, 40, Some(2), false),
+        // idle arenas exist before the workers start: every get variant must reuse them, also under contention
+        p(c("2x2-tryget-prefill2-drop-up", 2, 2, GetKind::TryGet, EndMode::Drop, true, 40, None, false), 2),
+        p(c("2x1-get-prefill3-reset-down", 2, 1, GetKind::Get, EndMode::Reset, false, 40, None, false), 3),
+        p(c("2x1-withcapacity-prefill2-drop-up", 2, 1, GetKind::WithCapacity, EndMode::Drop, true, 40, None, false), 2),
     ];
     if thorough {
         v.push(c("3x1-get-drop-up", 3, 1, GetKind::Get, EndMode::Drop, true, 40, None, false));
